@@ -8,6 +8,7 @@ import (
 	"runtime"
 	"strings"
 	"sync"
+	"sync/atomic"
 	"testing"
 	"testing/synctest"
 	"time"
@@ -36,7 +37,8 @@ type c07Conn struct {
 	pfrags    []int    // fragment count of each pending message
 	pcomp     []bool   // whether each pending message went out compressed
 	curComp   bool
-	noComp    bool // after a partly read compressed message was abandoned under context takeover the window is out of step: no more compressed messages
+	noEcho    atomic.Bool // the peer does not answer this connection's Close frame (its close handshake runs into the 5 s limit)
+	noComp    bool        // after a partly read compressed message was abandoned under context takeover the window is out of step: no more compressed messages
 	curFrags  int
 	compHist  int // bytes of compressed-message payload received under takeover (this connection\'s own LZ77 history)
 	cur       io.Reader
@@ -78,8 +80,12 @@ type c07State struct {
 	steps        []string
 }
 
-func (s *c07State) openConn(t fataler, mode c03Mode) *c07Conn {
-	lc, err := s.e.open(connSpec{Client: mode.Client, Mode: mode.Mode, Ext: mode.Ext})
+func (s *c07State) openConn(t fataler, mode c03Mode, pipelined ...[]byte) *c07Conn {
+	spec := connSpec{Client: mode.Client, Mode: mode.Mode, Ext: mode.Ext}
+	if len(pipelined) > 0 && !mode.Client {
+		spec.Pipelined = pipelined[0] // arrives in the same segment as the handshake request
+	}
+	lc, err := s.e.open(spec)
 	if err != nil {
 		t.Fatalf("handshake: %v", err)
 	}
@@ -98,7 +104,7 @@ func (s *c07State) openConn(t fataler, mode c03Mode) *c07Conn {
 	c.def = ref.NewDeflater(lc.Agreed.SenderTakeover(!mode.Client))
 	p := lc.Peer
 	p.onFrame = func(f ref.Frame) {
-		if f.Opcode == ref.OpClose {
+		if f.Opcode == ref.OpClose && !c.noEcho.Load() {
 			p.send(ref.Frame{Fin: true, Opcode: ref.OpClose, Payload: f.Payload})
 		}
 	}
@@ -333,6 +339,28 @@ func TestC07(t *testing.T) {
 						rt.Fatalf("C07: conn %d: Reader succeeded although the previous message was not read to completion", c.id)
 					}
 					c.alive = false
+				},
+				"closeReadData": func(rt *rapid.T) {
+					// The application expects no more messages (CloseRead) and the peer sends one all the same -
+					// compressed where that was agreed: the library starts a close handshake of its own, which the
+					// peer does not answer, so the connection lingers for seconds of virtual time in a half-closed
+					// state while the other connections carry on. Whatever it took from the pools for that message
+					// must not surface anywhere else, now or when it finally closes.
+					c := s.pick(rt, func(c *c07Conn) bool { return c.alive && c.open && c.cur == nil && len(c.pending) == 0 })
+					if c == nil {
+						return
+					}
+					c.noEcho.Store(true)
+					c.lc.C.CloseRead(context.Background())
+					payload := tagged(c.id, c.seq, rapid.SampledFrom([]int{50, 3000}).Draw(rt, "unexpectedSize"))
+					c.seq++
+					for _, f := range c.frames(payload, true, 1, false) {
+						c.lc.Peer.send(f)
+					}
+					step("closeReadData(c%d,%d)", c.id, len(payload))
+					synctest.Wait()
+					c.alive = false // nothing can be read from it any more; it is still open (closing by itself)
+					s.release(c.id, "closeread-data")
 				},
 				"closeLocal": func(rt *rapid.T) {
 					c := s.pick(rt, func(c *c07Conn) bool { return c.open })
@@ -717,6 +745,21 @@ func TestC07(t *testing.T) {
 						return
 					}
 					m := rapid.SampledFrom(c07Modes).Draw(rt, "mode")
+					if !m.Client && rapid.IntRange(0, 2).Draw(rt, "earlyData") == 0 {
+						// the client's first message arrives in the same segment as its handshake request and waits in
+						// the hijacked reader's buffer until the application gets round to reading it - other
+						// connections are opened and read in the meantime
+						id := len(s.conns)
+						payload := tagged(id, 0, rapid.SampledFrom([]int{17, 300, 3000}).Draw(rt, "earlySize"))
+						_, wire, _ := finishMasking([]ref.Frame{{Fin: true, Opcode: ref.OpBinary, Payload: payload}}, false)
+						c := s.openConn(rt, m, wire)
+						c.seq = 1
+						c.pending = append(c.pending, payload)
+						c.pfrags = append(c.pfrags, 1)
+						c.pcomp = append(c.pcomp, false)
+						step("fresh(c%d,%s,early=%d)", c.id, m.Name, len(payload))
+						return
+					}
 					c := s.openConn(rt, m)
 					step("fresh(c%d,%s)", c.id, m.Name)
 				},
